@@ -11,7 +11,7 @@ RULE = ("in states reached by random valid histories, every kind of invalid call
         "enum values with ';'), each followed by a full snapshot, then save + reopen + snapshot; non-trivial = the call "
         "is predicted to be rejected; distinct = distinct command lists")
 ASSUMPTIONS = ["the medium never fails in this check (argument errors only)"]
-KINDS = {"err-changed", "gate", "panic", "reopen"}
+KINDS = {"err-changed", "gate", "panic", "reopen", "wf", "raw"}
 
 
 def late_failing_defs(rng):
@@ -127,6 +127,9 @@ def gen_cases(rng, tier, info):
             emit(h, call)
             h.obs()
             n_calls += 1
+        # nothing of a rejected call may reach the file either (string pool entries, streams): the saved bytes are
+        # compared with the model's and decoded by the independent decoder (exact accounting)
+        h.flush(); h.raw()
         h.reopen()
         h.obs()
         cases.append(Case("inv-%d" % j, h.cmds))
@@ -141,7 +144,7 @@ def nontrivial(case):
 def oracle(ctx):
     bad = []
     for c, outs in zip(ctx.cases, ctx.impl_out):
-        for f in G.walk(c.cmds, outs):
+        for f in G.walk(c.cmds, outs, decode=lambda cp, raw: raw.decode("utf-8", "replace")):
             if f["kind"] in KINDS:
                 bad.append(f)
                 break
